@@ -73,15 +73,15 @@ impl DynamicTypeItem {
                 None => return None
             };
 
+            if next_item.index == target_type.index {
+                break;
+            }
+
+            /* Only behind the check: the walk down to a unit with index 0 must not step below it */
             search_index = match source_type.index > target_type.index {
                 true => search_index - 1,
                 false => search_index + 1
             };
-            
-            if next_item.index == target_type.index {
-                break;
-            }
-            
         }
         
         Some(number)
